@@ -473,3 +473,34 @@ Theorem C05_mapor_kmn_addonly_needed :
     mo_state_entries sX 0 = ∅ /\ mo_state_entries sY 0 = {[1 := {[0 := 1]}]}.
 Proof. exact kmn_addonly_needed_closed. Qed.
 Print Assumptions C05_mapor_kmn_addonly_needed.
+
+(** Map<K, MVReg> (MVReg leaves) WITHOUT key removes, op-based replication (no state merges), per-actor delivery with duplicates: the register under every key holds exactly (up to the order of the vector) the causally maximal writes addressed to that key.
+    Map::update hands the nested write the whole-map context; without key removes and merges that over-approximation is harmless
+    (proofs/MapMVRegNK.v).  With merges - or key removes - it is not: finding T1; closed witness below *)
+From Crdt Require Import model.MVReg model.Map spec.System spec.OrswotSpec spec.OrswotSystem spec.Specs spec.MapSpec spec.MapSystem spec.MapMVRegSpec proofs.MapMVRegNK.
+Theorem C05_mapmv_values_refine_nk (H : list (oprec (mop mvop))) :
+  mvhist_ok_nk H -> forall (s : cmap (list (gmap N N * N))) (K : gset nat), mvreach_nk H s K ->
+    forall k, mv_state_vals s k ≡ₚ mv_maximal (mv_writes (mv_proj (known_ops H K) k)).
+Proof. exact (mapmv_values_refine_nk H). Qed.
+Print Assumptions C05_mapmv_values_refine_nk.
+
+Theorem C05_mapmv_vals_ok (H : list (oprec (mop mvop))) :
+  mvhist_ok_nk H -> forall (s : cmap (list (gmap N N * N))) (K : gset nat), mvreach_nk H s K -> mapmv_vals_ok H K s = true.
+Proof. exact (mapmv_vals_ok_reach H). Qed.
+Print Assumptions C05_mapmv_vals_ok.
+
+Theorem C05_mapmv_merge_refuted :
+  exists (H : list (oprec (mop mvop))) (s : cmap (list (gmap N N * N))) (K : gset nat),
+    H = [OpRec 3 (MUp (Dot 3 1) 1 (MVPut {[3 := 1]} 7)) ∅;
+         OpRec 2 (MUp (Dot 2 1) 0 (MVPut {[3 := 1; 2 := 1]} 1)) (∅ ∪ {[0%nat]});
+         OpRec 2 (MUp (Dot 2 2) 0 (MVPut {[3 := 1; 2 := 2]} 0)) (∅ ∪ {[0%nat]} ∪ {[1%nat]})] /\
+    mvhist_ok_nk_causal H /\
+    hist_ok mnew (mapply mvreg_valops) (mmerge mvreg_valops) mvgen adm_causal True H /\
+    reach mnew (mapply mvreg_valops) (mmerge mvreg_valops) adm_causal True H s K /\
+    (forall i, i ∈ K <-> (i < 3)%nat) /\
+    mv_state_vals s 0 = [({[3 := 1; 2 := 1]}, 1); ({[2 := 2]}, 0)] /\
+    mv_maximal (mv_writes (mv_proj (known_ops H K) 0)) = [({[3 := 1; 2 := 2]}, 0)] /\
+    ~ (mv_state_vals s 0 ≡ₚ mv_maximal (mv_writes (mv_proj (known_ops H K) 0))) /\
+    mapmv_vals_ok H K s = false.
+Proof. exact mapmv_merge_refuted. Qed.
+Print Assumptions C05_mapmv_merge_refuted.
